@@ -58,6 +58,12 @@ Engine/EvalCacheProofs.vos Engine/EvalCacheProofs.vok Engine/EvalCacheProofs.req
 Engine/Game.vo Engine/Game.glob Engine/Game.v.beautified Engine/Game.required_vo: Engine/Game.v 
 Engine/Game.vio: Engine/Game.v 
 Engine/Game.vos Engine/Game.vok Engine/Game.required_vos: Engine/Game.v 
+Engine/GoParse.vo Engine/GoParse.glob Engine/GoParse.v.beautified Engine/GoParse.required_vo: Engine/GoParse.v 
+Engine/GoParse.vio: Engine/GoParse.v 
+Engine/GoParse.vos Engine/GoParse.vok Engine/GoParse.required_vos: Engine/GoParse.v 
+Engine/GoParseProofs.vo Engine/GoParseProofs.glob Engine/GoParseProofs.v.beautified Engine/GoParseProofs.required_vo: Engine/GoParseProofs.v Engine/GoParse.vo
+Engine/GoParseProofs.vio: Engine/GoParseProofs.v Engine/GoParse.vio
+Engine/GoParseProofs.vos Engine/GoParseProofs.vok Engine/GoParseProofs.required_vos: Engine/GoParseProofs.v Engine/GoParse.vos
 Engine/KPK.vo Engine/KPK.glob Engine/KPK.v.beautified Engine/KPK.required_vo: Engine/KPK.v Base/Geom.vo Engine/Game.vo
 Engine/KPK.vio: Engine/KPK.v Base/Geom.vio Engine/Game.vio
 Engine/KPK.vos Engine/KPK.vok Engine/KPK.required_vos: Engine/KPK.v Base/Geom.vos Engine/Game.vos
@@ -247,9 +253,9 @@ Props/Properties_C07.vos Props/Properties_C07.vok Props/Properties_C07.required_
 Props/Properties_C08.vo Props/Properties_C08.glob Props/Properties_C08.v.beautified Props/Properties_C08.required_vo: Props/Properties_C08.v Gen/Consts.vo Engine/SearchDriver.vo Engine/MateScore.vo
 Props/Properties_C08.vio: Props/Properties_C08.v Gen/Consts.vio Engine/SearchDriver.vio Engine/MateScore.vio
 Props/Properties_C08.vos Props/Properties_C08.vok Props/Properties_C08.required_vos: Props/Properties_C08.v Gen/Consts.vos Engine/SearchDriver.vos Engine/MateScore.vos
-Props/Properties_C09.vo Props/Properties_C09.glob Props/Properties_C09.v.beautified Props/Properties_C09.required_vo: Props/Properties_C09.v Gen/Consts.vo Engine/SearchDriver.vo Engine/SearchDriverProofs.vo
-Props/Properties_C09.vio: Props/Properties_C09.v Gen/Consts.vio Engine/SearchDriver.vio Engine/SearchDriverProofs.vio
-Props/Properties_C09.vos Props/Properties_C09.vok Props/Properties_C09.required_vos: Props/Properties_C09.v Gen/Consts.vos Engine/SearchDriver.vos Engine/SearchDriverProofs.vos
+Props/Properties_C09.vo Props/Properties_C09.glob Props/Properties_C09.v.beautified Props/Properties_C09.required_vo: Props/Properties_C09.v Gen/Consts.vo Engine/SearchDriver.vo Engine/SearchDriverProofs.vo Engine/GoParse.vo Engine/GoParseProofs.vo
+Props/Properties_C09.vio: Props/Properties_C09.v Gen/Consts.vio Engine/SearchDriver.vio Engine/SearchDriverProofs.vio Engine/GoParse.vio Engine/GoParseProofs.vio
+Props/Properties_C09.vos Props/Properties_C09.vok Props/Properties_C09.required_vos: Props/Properties_C09.v Gen/Consts.vos Engine/SearchDriver.vos Engine/SearchDriverProofs.vos Engine/GoParse.vos Engine/GoParseProofs.vos
 Props/Properties_C10.vo Props/Properties_C10.glob Props/Properties_C10.v.beautified Props/Properties_C10.required_vo: Props/Properties_C10.v Gen/Consts.vo Gen/Layout.vo Gen/LayoutAst.vo Engine/SearchDriver.vo Engine/SearchDriverProofs.vo
 Props/Properties_C10.vio: Props/Properties_C10.v Gen/Consts.vio Gen/Layout.vio Gen/LayoutAst.vio Engine/SearchDriver.vio Engine/SearchDriverProofs.vio
 Props/Properties_C10.vos Props/Properties_C10.vok Props/Properties_C10.required_vos: Props/Properties_C10.v Gen/Consts.vos Gen/Layout.vos Gen/LayoutAst.vos Engine/SearchDriver.vos Engine/SearchDriverProofs.vos
